@@ -76,6 +76,10 @@ func (c *Ctx) safetyOblige(st *State, fr *Frame, instr ssa.Instruction, kind, de
 	if fr.contract != nil && fr.contract.Flags["nosafety"] {
 		return
 	}
+	if c.contract != nil && c.contract.Flags["nosafety"] {
+		// the function under verification opted out of the safety sweep: also in code inlined into it
+		return
+	}
 	c.oblige(st, fr, instr, kind, desc, goal, nil, nil)
 	// after checking, assume (standard: avoid cascading failures)
 	st.assume(goal)
@@ -1080,6 +1084,9 @@ func (c *Ctx) execPanic(st *State, fr *Frame, x *ssa.Panic) {
 		return
 	}
 	if fr.contract != nil && fr.contract.Flags["nosafety"] {
+		return
+	}
+	if c.contract != nil && c.contract.Flags["nosafety"] {
 		return
 	}
 	c.oblige(st, fr, x, "panic", "explicit panic is unreachable", goal, nil, nil)
